@@ -194,6 +194,79 @@ def hash_pairs(ctx, seed):
     yield "Note", "near_message", n, n.model_copy(update={"message": n.message + "!"})
     se = objs["SoundEvent"]
     yield "SoundEvent", "near_features", se, se.model_copy(update={"features": []})
+    yield from neighbour_pairs(objs, g.rng)
+
+
+# ------------------------------------------------------- nearest neighbours of an object
+def _leaves(obj, path=(), depth=0):
+    import datetime
+
+    from pydantic import BaseModel
+
+    if depth > 4:
+        return
+    if isinstance(obj, BaseModel):
+        for name in type(obj).model_fields:
+            yield from _leaves(getattr(obj, name, None), path + (name,), depth + 1)
+    elif isinstance(obj, list):
+        for i, v in enumerate(obj[:3]):
+            yield from _leaves(v, path + (i,), depth + 1)
+    elif isinstance(obj, bool) or obj is None:
+        return
+    elif isinstance(obj, (int, float, str, datetime.datetime)):
+        yield path, obj
+
+
+def _near(v):
+    """Values a hair away from ``v``: what two computations of 'the same' number, or two spellings of 'the same'
+    text, produce.  Whether the library calls them equal is its business; equal objects must then hash equally."""
+    import datetime
+    import math
+    import unicodedata
+
+    if isinstance(v, float) and math.isfinite(v):
+        out = [math.nextafter(v, math.inf), math.nextafter(v, -math.inf), v * (1 + 2.0 ** -40) if v else 5e-324, v + 1e-10 * (abs(v) or 1.0), v * (1 + 1e-7) if v else 1e-12]
+    elif isinstance(v, int):
+        out = [math.nextafter(float(v), math.inf), float(v) * (1 + 1e-10) if v else 1e-300]
+    elif isinstance(v, str):
+        out = [v + " ", v.upper(), v.lower(), unicodedata.normalize("NFD", v), unicodedata.normalize("NFKC", v), v + "\u200b", " " + v]
+    elif isinstance(v, datetime.datetime):
+        out = [v + datetime.timedelta(microseconds=1), v.replace(microsecond=0)]
+    else:
+        out = []
+    return [x for x in out if x != v or type(x) is not type(v)]
+
+
+def _with(obj, path, value):
+    b = copy.deepcopy(obj)
+    node = b
+    for k in path[:-1]:
+        node = node[k] if isinstance(k, int) else getattr(node, k)
+    if isinstance(path[-1], int):
+        node[path[-1]] = value
+    else:
+        try:
+            setattr(node, path[-1], value)
+        except Exception:
+            object.__setattr__(node, path[-1], value)
+    return b
+
+
+def neighbour_pairs(objs, rng, cap=24):
+    for name, a in objs.items():
+        leaves = list(_leaves(a))
+        rng.shuffle(leaves)
+        n = 0
+        for path, v in leaves:
+            for x in _near(v):
+                if n >= cap:
+                    break
+                try:
+                    b = _with(a, path, x)
+                except Exception:
+                    continue
+                n += 1
+                yield name, "neighbour:" + ".".join(str(p) for p in path if not isinstance(p, int)) + ":" + type(v).__name__, a, b
 
 
 def judge_hash(ctx, cls, how, a, b):
